@@ -186,6 +186,14 @@ Qed.
 Lemma parse_element_ok sp kv u : parse_element sp kv = Ok u -> pe_keys sp kv = true.
 Proof. unfold parse_element. destruct (pe_keys sp kv); [reflexivity|discriminate]. Qed.
 
+Lemma parse_element_mand sp kv u m :
+  parse_element sp kv = Ok u -> In m (e_mand sp) -> has_key kv (fst m) = true.
+Proof.
+  unfold parse_element. destruct (pe_keys sp kv); [|discriminate].
+  destruct (forallb _ (e_mand sp)) eqn:Hf; [|discriminate]. intros _ Hin.
+  rewrite forallb_forall in Hf. exact (Hf m Hin).
+Qed.
+
 Lemma parse_element_safe Q sp kv : Q (DGE "") -> safeE Q (parse_element sp kv).
 Proof.
   intros HQ. unfold parse_element, dge.
@@ -249,10 +257,6 @@ Qed.
 Section WalkSafe.
   Variable Q : err -> Prop.
   Hypothesis Qdge : Q (DGE "").
-  Hypothesis Qfield : Q (Internal "AssertionError:parse_recipe_yaml.py:parse_field").
-  Hypothesis Qstmt : Q (Internal "AttributeError:parse_recipe_yaml.py:parse_statement_list").
-  Hypothesis Qforeach :
-    Q (Internal "AttributeError:parse_recipe_yaml.py:parse_for_each_variable_definition").
   Variable inc : string -> result (list rrv).
   Variable A : string -> Prop.                    (* the macro names for which inc is known to behave *)
   Hypothesis Hinc : forall nm, A nm -> safeE Q (inc nm).
@@ -305,8 +309,7 @@ Section WalkSafe.
 
   Lemma field_name_check_safe n : safeE Q (field_name_check n).
   Proof.
-    unfold field_name_check, py_assert. destruct (nonempty n); [apply safeE_ok|].
-    apply safeE_err. exact Qfield.
+    unfold field_name_check. destruct (nonempty n); [apply safeE_ok|apply dge_safe].
   Qed.
 
   Section Rec.
@@ -388,9 +391,13 @@ Section WalkSafe.
     Lemma pfe_safe kv : (size (YMap kv) <= N)%nat -> NamesIn (YMap kv) -> safeE Q (pfe rec kv).
     Proof.
       intros Hs Hn. unfold pfe. cbv zeta.
-      sbind; [apply parse_element_safe; exact Qdge|].
+      destruct (parse_element for_each_spec kv) as [u|e] eqn:Hpe;
+        [|apply safeE_err; eapply (parse_element_safe Q); [exact Qdge|exact Hpe]].
       sbind; [|apply value_res_safe; assumption].
-      unfold py_attr. destruct (lookup "var" kv); [apply safeE_ok|]. cbn. apply safeE_err. exact Qforeach.
+      (* `var` is a mandatory key now *)
+      pose proof (parse_element_mand _ _ _ ("var", is_str) Hpe (or_introl eq_refl)) as Hv.
+      unfold has_key in Hv. cbn [fst] in Hv.
+      unfold py_attr. destruct (lookup "var" kv); [apply safeE_ok|discriminate].
     Qed.
 
     Lemma pvd_safe kv :
@@ -500,8 +507,7 @@ Section WalkSafe.
         then match pot inc (walk inc) top kv with Ok r => Ok (DKNoDef, r) | Err e => Err e end
         else if truthy_opt (lookup "var" kv)
              then match pvd (walk inc) kv with Ok r => Ok (DKNoDef, r) | Err e => Err e end
-             else if all_keys_str kv then dge
-                  else crash "AttributeError" "parse_recipe_yaml.py:parse_statement_list"
+             else dge
       | _ => match need_parent (negb top) with Ok _ => dge | Err e => Err e end
       end
     end.
@@ -532,7 +538,7 @@ Section WalkSafe.
       + sbind; [|apply safeE_ok]. eapply pot_safe; [exact Hrec|lia|exact Hn|exact Ho].
       + destruct (truthy_opt (lookup "var" kv)) eqn:Hv.
         * sbind; [|apply safeE_ok]. eapply pvd_safe; [exact Hrec|lia|exact Hn|exact Hv].
-        * destruct (all_keys_str kv); [apply dge_safe|]. apply safeE_err. exact Qstmt.
+        * apply dge_safe.
   Qed.
 
   Lemma walk_safe y m :
@@ -626,58 +632,82 @@ Proof.
   - intros H. specialize (IH H). destruct e; try exact IH. right; exact IH.
 Qed.
 
+(* the keys of the documents the environment can hand in *)
+Fixpoint doc_keys (l : list ((string * string) * fentry)) : list string :=
+  match l with
+  | [] => []
+  | (_, FDoc k _) :: r => k :: doc_keys r
+  | _ :: r => doc_keys r
+  end.
+
+Lemma find_file_doc_key k l k' d : find_file k l = Some (FDoc k' d) -> In k' (doc_keys l).
+Proof.
+  induction l as [|[kk e] l IH]; cbn [find_file doc_keys]; [discriminate|].
+  destruct (String.eqb (fst kk) (fst k) && String.eqb (snd kk) (snd k)).
+  - intros H; inversion H; subst. left; reflexivity.
+  - intros H. specialize (IH H). destruct e; try exact IH. right; exact IH.
+Qed.
+
+Lemma mem_false_not_in k l : mem k l = false -> ~ In k l.
+Proof.
+  unfold mem. intros H Hin. assert (existsb (String.eqb k) l = true).
+  { apply existsb_exists. exists k. split; [exact Hin|apply String.eqb_refl]. }
+  congruence.
+Qed.
+
+Lemma NoDup_snoc {A} (l : list A) x : NoDup l -> ~ In x l -> NoDup (l ++ [x]).
+Proof.
+  induction l as [|a l IH]; cbn [app]; intros Hn Hx.
+  - constructor; [intros []|constructor].
+  - inversion Hn as [|? ? Ha Hl]; subst. constructor.
+    + rewrite in_app_iff. intros [H|[H|[]]]; [contradiction|]. subst. apply Hx. left; reflexivity.
+    + apply IH; [exact Hl|]. intros H; apply Hx; right; exact H.
+Qed.
+
+(* The static phase under a generic error predicate Q: Q must hold of DataGenErrors, of what the
+   environment raises, and of the two artefacts BadOracle / Unsupported; file fuel exhaustion is handled
+   through a precondition Pre on (fuel, inclusion stack, file) that either makes it acceptable or impossible. *)
 Section Top.
   Variable E : env.
+  Variable Q : err -> Prop.
+  Hypothesis Qdge : Q (DGE "").
+  Hypothesis Qenv : forall s, In s (env_crashes E) -> Q (Internal s).
+  Hypothesis Qbad : Q BadOracle.
+  Hypothesis Quns : Q Unsupported.
 
-  Definition K (s : string) : Prop := In s known_crash_sites \/ In s (env_crashes E).
-  Definition QK (e : err) : Prop := forall s, e = Internal s -> K s.
+  Definition walk_ok inc (Hinc : forall nm, safeE Q (inc nm)) y m Hm :=
+    walk_safe Q Qdge inc (fun _ => True) (fun nm _ => Hinc nm) y m Hm (fun _ _ => I).
 
-  Lemma QK_dge : QK (DGE "").
-  Proof. intros s H; discriminate. Qed.
-  Lemma QK_known s : In s known_crash_sites -> QK (Internal s).
-  Proof. intros H s' H'; inversion H'; subst. left; exact H. Qed.
-  Lemma QK_env s : In s (env_crashes E) -> QK (Internal s).
-  Proof. intros H s' H'; inversion H'; subst. right; exact H. Qed.
-  Lemma QK_other e : (forall s, e <> Internal s) -> QK e.
-  Proof. intros H s H'. exfalso. exact (H s H'). Qed.
+  (* macro expansion: Pm n parents says when running out of fuel is acceptable / impossible *)
+  Variable Pm : nat -> list string -> Prop.
+  Hypothesis Pm0 : forall parents, Pm O parents -> Q OutOfFuel.
 
-  Ltac known := apply safeE_err; apply QK_known; cbv [known_crash_sites In];
-                repeat (first [left; reflexivity | right]).
-
-  Ltac inknown := apply QK_known; cbv [known_crash_sites In]; repeat (first [left; reflexivity | right]).
-  Lemma QK_field : QK (Internal "AssertionError:parse_recipe_yaml.py:parse_field").
-  Proof. inknown. Qed.
-  Lemma QK_stmt : QK (Internal "AttributeError:parse_recipe_yaml.py:parse_statement_list").
-  Proof. inknown. Qed.
-  Lemma QK_foreach : QK (Internal "AttributeError:parse_recipe_yaml.py:parse_for_each_variable_definition").
-  Proof. inknown. Qed.
-
-  Definition walk_ok inc (Hinc : forall nm, safeE QK (inc nm)) y m Hm :=
-    walk_safe QK QK_dge QK_field QK_stmt QK_foreach inc (fun _ => True) (fun nm _ => Hinc nm) y m Hm
-              (fun _ _ => I).
-
-  Lemma include_macro_safe M n : forall parents name, safeE QK (include_macro M n parents name).
+  Lemma include_macro_safe M :
+    (forall n' ps nm, Pm (S n') ps -> lookup_macro nm M <> None -> mem nm ps = false -> Pm n' (ps ++ [nm])) ->
+    forall n parents name, Pm n parents -> safeE Q (include_macro M n parents name).
   Proof.
-    induction n as [|n IH]; intros parents name; cbn [include_macro].
-    - apply safeE_err. apply QK_other. discriminate.
-    - destruct (lookup_macro name M) as [body|]; [|apply safeE_err; exact QK_dge].
+    intros HS n. induction n as [|n IH]; intros parents name HP; cbn [include_macro].
+    - apply safeE_err. eapply Pm0. exact HP.
+    - destruct (lookup_macro name M) as [body|] eqn:Hb; [|apply safeE_err; exact Qdge].
       cbv zeta.
       destruct (parse_element macro_spec body) as [u|e] eqn:Hpe;
-        [|apply safeE_err; eapply (parse_element_safe QK); [exact QK_dge|exact Hpe]].
-      destruct (mem name parents); [apply safeE_err; exact QK_dge|].
+        [|apply safeE_err; eapply (parse_element_safe Q); [exact Qdge|exact Hpe]].
+      destruct (mem name parents) eqn:Hmem; [apply safeE_err; exact Qdge|].
+      assert (HP' : Pm n (parents ++ [name])).
+      { apply HS; [exact HP| |exact Hmem]. rewrite Hb. discriminate. }
       assert (Hw : forall y' m', (size y' < S (size (YMap body)))%nat -> m' <> MStmt true ->
                                  NamesIn (fun _ => True) y' ->
-                                 safeE QK (walk (include_macro M n []) m' y')).
-      { intros y' m' _ Hm _. apply walk_ok; [intros; apply IH|]. intros Hc; contradiction. }
+                                 safeE Q (walk (include_macro M n (parents ++ [name])) m' y')).
+      { intros y' m' _ Hm _. apply walk_ok; [intros; apply IH; exact HP'|]. intros Hc; contradiction. }
       sbind.
       { unfold py_split_include. destruct (lookup "include" body) as [v|] eqn:Hl; [|apply safeE_ok].
         pose proof (spec_typed _ _ _ _ _ _ Hpe Hl eq_refl) as Hd. cbn beta in Hd.
         destruct v; try discriminate. }
-      sbind; [apply (each_inc_safe QK _ (fun _ => True)); [intros; apply IH|intros; exact I]|].
+      sbind; [apply (each_inc_safe Q _ (fun _ => True)); [intros; apply IH; exact HP'|intros; exact I]|].
       sbind. { unfold py_attr. destruct (lookup "fields" body); apply safeE_ok. }
       sbind.
       { unfold py_attr in H1. destruct (lookup "fields" body) as [v|] eqn:Hl; inversion H1; subst.
-        - eapply (parse_fields_safe QK QK_dge QK_field (fun _ => True)); [exact Hw | | |].
+        - eapply (parse_fields_safe Q Qdge (fun _ => True)); [exact Hw | | |].
           + pose proof (lookup_size _ _ _ Hl). lia.
           + intros ? ?; exact I.
           + intros _. exact (spec_typed _ _ _ _ _ _ Hpe Hl eq_refl).
@@ -685,7 +715,7 @@ Section Top.
       sbind. { unfold py_attr. destruct (lookup "friends" body); apply safeE_ok. }
       sbind; [|apply safeE_ok].
       unfold py_attr in H3. destruct (lookup "friends" body) as [v|] eqn:Hl; inversion H3; subst.
-      + eapply (parse_friends_safe QK (fun _ => True)); [exact Hw | | |].
+      + eapply (parse_friends_safe Q (fun _ => True)); [exact Hw | | |].
         * pose proof (lookup_size _ _ _ Hl). lia.
         * intros ? ?; exact I.
         * intros _. exact (spec_typed _ _ _ _ _ _ Hpe Hl eq_refl).
@@ -693,138 +723,149 @@ Section Top.
   Qed.
 
   (* ---- files *)
+  Definition opt_ok (o : kvs) : Prop := exists name, lookup "option" o = Some name /\ hashable name = true.
+
   Definition CtxOK (c : ctx) : Prop :=
-    Forall (fun y => is_dict y = true) (c_stmts c) /\
-    Forall (fun o => has_key o "option" = true) (c_opts c).
+    Forall (fun y => is_dict y = true) (c_stmts c) /\ Forall opt_ok (c_opts c).
 
-  Definition LoadOK (load : string -> yaml -> ctx -> result ctx) : Prop :=
-    forall key doc c, CtxOK c ->
-      safeE QK (load key doc c) /\ forall c', load key doc c = Ok c' -> CtxOK c'.
+  Variable Pf : nat -> list string -> string -> Prop.
+  Hypothesis Pf0 : forall stack key, Pf O stack key -> Q OutOfFuel.
+  Hypothesis PfS : forall n stack key k,
+    Pf (S n) stack key -> In k (doc_keys (fenv E)) -> String.eqb k key || mem k stack = false ->
+    Pf n (key :: stack) k.
 
-  Lemma load_failure_safe how : safeE QK (@load_failure ctx how) \/
-                                exists s, how = LExc s.
+  Definition LoadOK (load : string -> yaml -> ctx -> result ctx) (P : string -> Prop) : Prop :=
+    forall key doc c, P key -> CtxOK c ->
+      safeE Q (load key doc c) /\ forall c', load key doc c = Ok c' -> CtxOK c'.
+
+  Lemma include_one_ok load stack key y c kv (P : string -> Prop) :
+    LoadOK load P ->
+    (forall k, In k (doc_keys (fenv E)) -> String.eqb k key || mem k stack = false -> P k) ->
+    CtxOK c -> y = YMap kv -> truthy_opt (lookup "include_file" kv) = true ->
+    safeE Q (include_one E load stack key y c) /\
+    forall c', include_one E load stack key y c = Ok c' -> CtxOK c'.
   Proof.
-    destruct how; [left|left|right; eauto]; cbn [load_failure].
-    - apply safeE_err; exact QK_dge.
-    - known.
-  Qed.
-
-  Lemma include_one_ok load key y c kv :
-    LoadOK load -> CtxOK c -> y = YMap kv -> truthy_opt (lookup "include_file" kv) = true ->
-    safeE QK (include_one E load key y c) /\ forall c', include_one E load key y c = Ok c' -> CtxOK c'.
-  Proof.
-    intros Hload Hc Hy Ht. subst y. unfold include_one. cbn [as_dict].
+    intros Hload HP Hc Hy Ht. subst y. unfold include_one. cbn [as_dict].
     destruct (parse_element include_file_spec kv) as [u|e] eqn:Hpe.
-    2:{ split; [|discriminate]. apply safeE_err. eapply (parse_element_safe QK); [exact QK_dge|exact Hpe]. }
+    2:{ split; [|discriminate]. apply safeE_err. eapply (parse_element_safe Q); [exact Qdge|exact Hpe]. }
     unfold py_attr. destruct (lookup "include_file" kv) as [rel|] eqn:Hl; [|discriminate].
     pose proof (spec_typed _ _ _ _ _ _ Hpe Hl eq_refl) as Hs. cbn beta in Hs.
     destruct rel; try discriminate. cbn [py_startswith_slash].
-    destruct (starts_with_slash s); [split; [apply safeE_err; exact QK_dge|discriminate]|].
+    destruct (starts_with_slash s); [split; [apply safeE_err; exact Qdge|discriminate]|].
     destruct (find_file (key, s) (fenv E)) as [[| |how|k d]|] eqn:Hf.
-    - split; [apply safeE_err; exact QK_dge|discriminate].
-    - split; [known|discriminate].
+    - split; [apply safeE_err; exact Qdge|discriminate].
+    - split; [apply safeE_err; exact Qdge|discriminate].
     - split; [|destruct how; discriminate].
-      destruct how; cbn [load_failure].
-      + apply safeE_err; exact QK_dge.
-      + known.
-      + apply safeE_err. apply QK_env. unfold env_crashes. apply in_or_app. left.
-        eapply find_file_crash. exact Hf.
-    - apply Hload. exact Hc.
-    - split; [|discriminate]. apply safeE_err. apply QK_other. discriminate.
+      destruct how; cbn [load_failure]; try (apply safeE_err; exact Qdge).
+      apply safeE_err. apply Qenv. unfold env_crashes. apply in_or_app. left.
+      eapply find_file_crash. exact Hf.
+    - destruct (String.eqb k key || mem k stack) eqn:Hcyc.
+      + split; [apply safeE_err; exact Qdge|discriminate].
+      + apply Hload; [|exact Hc]. apply HP; [|exact Hcyc]. eapply find_file_doc_key. exact Hf.
+    - split; [|discriminate]. apply safeE_err. exact Qbad.
   Qed.
 
-  Lemma include_all_ok load key l : forall c,
-    LoadOK load -> CtxOK c ->
+  Lemma include_all_ok load stack key (P : string -> Prop) l : forall c,
+    LoadOK load P ->
+    (forall k, In k (doc_keys (fenv E)) -> String.eqb k key || mem k stack = false -> P k) ->
+    CtxOK c ->
     (forall y b, In (y, b) l -> b = true ->
                  exists kv, y = YMap kv /\ truthy_opt (lookup "include_file" kv) = true) ->
-    safeE QK (include_all E load key l c) /\ forall c', include_all E load key l c = Ok c' -> CtxOK c'.
+    safeE Q (include_all E load stack key l c) /\
+    forall c', include_all E load stack key l c = Ok c' -> CtxOK c'.
   Proof.
-    induction l as [|[y b] l IH]; intros c Hload Hc Hl; cbn [include_all].
+    induction l as [|[y b] l IH]; intros c Hload HP Hc Hl; cbn [include_all].
     - split; [apply safeE_ok|]. intros c' H; inversion H; subst; exact Hc.
     - destruct b.
       + destruct (Hl y true (or_introl eq_refl) eq_refl) as [kv [Hy Ht]].
-        destruct (include_one_ok load key y c kv Hload Hc Hy Ht) as [Hs Hk].
-        destruct (include_one E load key y c) as [c1|e] eqn:Ho.
-        * apply IH; [exact Hload|apply Hk; reflexivity|]. intros; eapply Hl; [right; eassumption|assumption].
-        * split; [|discriminate]. exact Hs.
-      + apply IH; [exact Hload|exact Hc|]. intros; eapply Hl; [right; eassumption|assumption].
+        destruct (include_one_ok load stack key y c kv P Hload HP Hc Hy Ht) as [Hs Hk].
+        destruct (include_one E load stack key y c) as [c1|e] eqn:Ho.
+        * apply IH; [exact Hload|exact HP|apply Hk; reflexivity|].
+          intros; eapply Hl; [right; eassumption|assumption].
+        * split; [|discriminate]. apply safeE_err. exact (Hs e eq_refl).
+      + apply IH; [exact Hload|exact HP|exact Hc|]. intros; eapply Hl; [right; eassumption|assumption].
   Qed.
 
-  Lemma resolve_plugin_safe spec : safeE QK (resolve_plugin E spec).
+  Lemma resolve_plugin_safe spec : safeE Q (resolve_plugin E spec).
   Proof.
-    unfold resolve_plugin. destruct spec; try (apply safeE_err; exact QK_dge).
-    destruct (has_char "."%char s); [|known].
+    unfold resolve_plugin. destruct spec; try (apply safeE_err; exact Qdge).
+    destruct (valid_plugin_name s); [|apply safeE_err; exact Qdge].
     destruct (assoc s (penv E)) as [[| | | | |site]|] eqn:Ha;
-      try apply safeE_ok; try (apply safeE_err; exact QK_dge).
-    - apply safeE_err. apply QK_env. unfold env_crashes. apply in_or_app. right.
+      try apply safeE_ok; try (apply safeE_err; exact Qdge).
+    - apply safeE_err. apply Qenv. unfold env_crashes. apply in_or_app. right.
       eapply assoc_crash. exact Ha.
-    - apply safeE_err. apply QK_other. discriminate.
+    - apply safeE_err. exact Qbad.
   Qed.
 
-  Lemma parse_version_safe vals : safeE QK (parse_version vals).
+  Lemma parse_version_safe vals : safeE Q (parse_version vals).
   Proof.
     unfold parse_version. destruct vals as [|v0 rest]; [apply safeE_ok|].
-    destruct (is_nan v0).
-    - destruct rest; [known|apply safeE_err; exact QK_dge].
-    - destruct (ver23 v0); [|apply safeE_err; exact QK_dge].
-      destruct (forallb _ rest); [apply safeE_ok|apply safeE_err; exact QK_dge].
+    destruct (is_nan v0); [apply safeE_err; exact Qdge|].
+    destruct (ver23 v0); [|apply safeE_err; exact Qdge].
+    destruct (forallb _ rest); [apply safeE_ok|apply safeE_err; exact Qdge].
   Qed.
 
   Lemma getitem_category c d cats site y :
     (forall d', In (d', c) collection_rules -> d' = d) ->
     Forall (fun p => categorize1 (snd p) = Ok (fst p)) cats ->
-    In y (of_category c cats) -> exists v, py_getitem site y d = Ok v.
+    In y (of_category c cats) -> exists kv v, y = YMap kv /\ lookup d kv = Some v /\ py_getitem site y d = Ok v.
   Proof.
     intros Hu Hf Hin. pose proof (of_category_in _ _ _ Hf Hin) as Hc.
     destruct (category_key c d y Hu Hc) as [kv [Hy Ht]]. subst y. cbn [py_getitem].
-    destruct (lookup d kv); [eauto|discriminate].
+    destruct (lookup d kv) as [v|] eqn:Hl; [|discriminate]. exists kv, v. auto.
   Qed.
 
   Lemma top_level_rest_ok cats c1 :
     Forall (fun p => categorize1 (snd p) = Ok (fst p)) cats -> CtxOK c1 ->
-    safeE QK (top_level_rest E cats c1) /\ forall c', top_level_rest E cats c1 = Ok c' -> CtxOK c'.
+    safeE Q (top_level_rest E cats c1) /\ forall c', top_level_rest E cats c1 = Ok c' -> CtxOK c'.
   Proof.
     intros Hf [Hst Hop]. unfold top_level_rest. cbv zeta.
     assert (Hdict : forall c y, In y (of_category c cats) -> exists kv, y = YMap kv).
     { intros c y Hin. destruct (categorize1_dict y c (of_category_in _ _ _ Hf Hin)) as [kv [Hy _]]. eauto. }
-    destruct (mapM _ (of_category "option" cats)) as [okvs|e] eqn:Hm1.
+    match goal with |- context [mapM ?f (of_category "option" cats)] =>
+      destruct (mapM f (of_category "option" cats)) as [okvs|e] eqn:Hm1 end.
     2:{ split; [|discriminate]. apply safeE_err.
-        eapply (mapM_safe QK); [|exact Hm1]. intros y Hin. destruct (Hdict _ _ Hin) as [kv Hy]. subst.
-        apply safeE_ok. }
-    assert (Hokvs : Forall (fun o => has_key o "option" = true) okvs).
+        eapply (mapM_safe Q); [|exact Hm1]. intros y Hin.
+        destruct (getitem_category "option" "option" cats "parse_recipe_yaml.py:parse_top_level_elements" y
+                    ltac:(rule_unique) Hf Hin) as [kv [v [Hy [_ Hv]]]].
+        rewrite Hv. unfold check_name. destruct (hashable v); [|apply safeE_err; exact Qdge].
+        subst y. apply safeE_ok. }
+    assert (Hokvs : Forall opt_ok okvs).
     { apply mapM_ok in Hm1.
-      assert (Hl : forall y, In y (of_category "option" cats) -> categorize1 y = Ok "option")
-        by (intros y Hin; exact (of_category_in _ _ _ Hf Hin)).
+      assert (Hl : forall y, In y (of_category "option" cats) ->
+                   exists kv v, y = YMap kv /\ lookup "option" kv = Some v /\
+                     py_getitem "parse_recipe_yaml.py:parse_top_level_elements" y "option" = Ok v).
+      { intros y Hin. exact (getitem_category "option" "option" cats _ y ltac:(rule_unique) Hf Hin). }
       revert Hm1 Hl. generalize (of_category "option" cats). intros l H2.
       induction H2 as [|y o l os Hy H2 IH]; intros Hl; constructor.
-      - assert (Hc : categorize1 y = Ok "option") by (apply Hl; left; reflexivity).
-        destruct (category_key "option" "option" y ltac:(rule_unique) Hc) as [kv [Hyy Ht]]. subst y.
-        cbn in Hy. inversion Hy; subst. unfold has_key. destruct (lookup "option" o); [reflexivity|discriminate].
+      - destruct (Hl y (or_introl eq_refl)) as [kv [v [Hyy [Hlk Hv]]]]. rewrite Hv in Hy.
+        unfold check_name in Hy. destruct (hashable v) eqn:Hh; [|discriminate].
+        subst y. cbn in Hy. inversion Hy; subst. exists v. auto.
       - apply IH. intros y' Hin. apply Hl. right; exact Hin. }
     match goal with |- context [mapM ?f (of_category "macro" cats)] =>
       destruct (mapM f (of_category "macro" cats)) as [ms|e] eqn:Hm2 end.
     2:{ split; [|discriminate]. apply safeE_err.
-        eapply (mapM_safe QK); [|exact Hm2]. intros y Hin.
+        eapply (mapM_safe Q); [|exact Hm2]. intros y Hin.
         destruct (getitem_category "macro" "macro" cats "parse_recipe_yaml.py:parse_top_level_elements" y
-                    ltac:(rule_unique) Hf Hin) as [v Hv].
-        rewrite Hv. unfold py_hash. destruct (hashable v); [|known].
-        destruct (Hdict _ _ Hin) as [kv Hy]. subst. apply safeE_ok. }
+                    ltac:(rule_unique) Hf Hin) as [kv [v [Hy [_ Hv]]]].
+        rewrite Hv. unfold check_name, py_hash. destruct (hashable v); [|apply safeE_err; exact Qdge].
+        subst y. apply safeE_ok. }
     match goal with |- context [mapM ?f (of_category "plugin" cats)] =>
       destruct (mapM f (of_category "plugin" cats)) as [specs|e] eqn:Hm3 end.
     2:{ split; [|discriminate]. apply safeE_err.
-        eapply (mapM_safe QK); [|exact Hm3]. intros y Hin.
+        eapply (mapM_safe Q); [|exact Hm3]. intros y Hin.
         destruct (getitem_category "plugin" "plugin" cats "parse_recipe_yaml.py:parse_top_level_elements" y
-                    ltac:(rule_unique) Hf Hin) as [v Hv].
+                    ltac:(rule_unique) Hf Hin) as [kv [v [_ [_ Hv]]]].
         rewrite Hv. apply safeE_ok. }
     destruct (mapM (resolve_plugin E) specs) as [ps|e] eqn:Hm4.
     2:{ split; [|discriminate]. apply safeE_err.
-        eapply (mapM_safe QK); [|exact Hm4]. intros; apply resolve_plugin_safe. }
+        eapply (mapM_safe Q); [|exact Hm4]. intros; apply resolve_plugin_safe. }
     match goal with |- context [mapM ?f (of_category "snowfakery_version" cats)] =>
       destruct (mapM f (of_category "snowfakery_version" cats)) as [vals|e] eqn:Hm5 end.
     2:{ split; [|discriminate]. apply safeE_err.
-        eapply (mapM_safe QK); [|exact Hm5]. intros y Hin.
+        eapply (mapM_safe Q); [|exact Hm5]. intros y Hin.
         destruct (getitem_category "snowfakery_version" "snowfakery_version" cats
-                    "parse_recipe_yaml.py:parse_version" y ltac:(rule_unique) Hf Hin) as [v Hv].
+                    "parse_recipe_yaml.py:parse_version" y ltac:(rule_unique) Hf Hin) as [kv [v [_ [_ Hv]]]].
         rewrite Hv. apply safeE_ok. }
     destruct (parse_version vals) as [ver|e] eqn:Hv.
     2:{ split; [|discriminate]. apply safeE_err. eapply parse_version_safe. exact Hv. }
@@ -834,27 +875,27 @@ Section Top.
     - apply Forall_app. split; assumption.
   Qed.
 
-  Lemma load_file_ok n : LoadOK (load_file E n).
+  Lemma load_file_ok n : forall stack, LoadOK (load_file E n stack) (Pf n stack).
   Proof.
-    induction n as [|n IH]; intros key doc c Hc; cbn [load_file].
-    - split; [|discriminate]. apply safeE_err. apply QK_other. discriminate.
-    - destruct doc; try (split; [apply safeE_err; exact QK_dge|discriminate]).
+    induction n as [|n IH]; intros stack key doc c HP Hc; cbn [load_file].
+    - split; [|discriminate]. apply safeE_err. eapply Pf0. exact HP.
+    - destruct doc; try (split; [apply safeE_err; exact Qdge|discriminate]).
       destruct (categorize l) as [cats|e] eqn:Hcat.
       2:{ split; [|discriminate]. apply safeE_err.
-          revert e Hcat. generalize l. clear. intros l. induction l as [|y l IHl]; cbn [categorize]; [discriminate|].
+          revert e Hcat. generalize l. clear -Qdge. intros l. induction l as [|y l IHl]; cbn [categorize]; [discriminate|].
           intros e. destruct (categorize1 y) as [cy|e1] eqn:H1.
           - destruct (categorize l) as [cs|e2] eqn:H2; [discriminate|].
             intros H; inversion H; subst. eapply IHl. reflexivity.
           - intros H; inversion H; subst. unfold categorize1 in H1.
-            destruct y; try (inversion H1; exact QK_dge).
-            destruct (filter _ collection_rules) as [|r [|r2 rs]]; inversion H1; exact QK_dge. }
+            destruct y; try (inversion H1; exact Qdge).
+            destruct (filter _ collection_rules) as [|r [|r2 rs]]; inversion H1; exact Qdge. }
       destruct (categorize_spec _ _ Hcat) as [Hmap Hf].
       assert (Hdata : forall y, In y l -> exists kv, y = YMap kv).
       { intros y Hin. rewrite <- Hmap in Hin. apply in_map_iff in Hin. destruct Hin as [[cy y'] [Hy Hin]].
         cbn in Hy; subst y'. rewrite Forall_forall in Hf. specialize (Hf _ Hin). cbn in Hf.
         destruct (categorize1_dict _ _ Hf) as [kv [Hy _]]. eauto. }
       match goal with |- context [mapM ?f l] => destruct (mapM f l) as [incl|e] eqn:Hincl end.
-      2:{ split; [|discriminate]. apply safeE_err. eapply (mapM_safe QK); [|exact Hincl].
+      2:{ split; [|discriminate]. apply safeE_err. eapply (mapM_safe Q); [|exact Hincl].
           intros y Hin. destruct (Hdata y Hin) as [kv Hy]. subst. apply safeE_ok. }
       assert (Hinc : forall y b, In (y, b) incl -> b = true ->
                 exists kv, y = YMap kv /\ truthy_opt (lookup "include_file" kv) = true).
@@ -865,39 +906,39 @@ Section Top.
           destruct Hd as [kv Hy]. subst y0. cbn in Hy0. inversion Hy0; subst.
           exists kv. split; [reflexivity|]. congruence.
         - apply IHi; [|exact Hin]. intros y' Hin'. apply Hdata. right; exact Hin'. }
-      destruct (include_all_ok (load_file E n) key incl c IH Hc Hinc) as [Hs Hk].
-      destruct (include_all E (load_file E n) key incl c) as [c1|e] eqn:Hia.
+      destruct (include_all_ok (load_file E n (key :: stack)) stack key (Pf n (key :: stack)) incl c
+                               (IH (key :: stack)) (fun k Hk Hc' => PfS n stack key k HP Hk Hc') Hc Hinc)
+        as [Hs Hk].
+      destruct (include_all E (load_file E n (key :: stack)) stack key incl c) as [c1|e] eqn:Hia.
       + apply top_level_rest_ok; [exact Hf|apply Hk; reflexivity].
-      + split; [exact Hs|discriminate].
+      + split; [|discriminate]. apply safeE_err. exact (Hs e eq_refl).
   Qed.
 
   (* ---- after the parse *)
-  Lemma merge_options_safe opts : forall ver,
-    Forall (fun o => has_key o "option" = true) opts -> safeE QK (merge_options opts ver).
+  Lemma merge_options_safe opts : forall ver, Forall opt_ok opts -> safeE Q (merge_options opts ver).
   Proof.
     induction opts as [|o opts IH]; intros ver Hf; cbn [merge_options]; [apply safeE_ok|].
-    inversion Hf as [|? ? Ho Hr]; subst. unfold has_key in Ho. cbn [py_getitem].
-    destruct (lookup "option" o) as [name|]; [|discriminate].
-    unfold py_hash. destruct (hashable name); [|known].
-    destruct (lookup "default" o); [|apply safeE_err; exact QK_dge].
+    inversion Hf as [|? ? Ho Hr]; subst. destruct Ho as [name [Hl Hh]]. cbn [py_getitem].
+    rewrite Hl. unfold py_hash. rewrite Hh.
+    destruct (lookup "default" o); [|apply safeE_err; exact Qdge].
     apply IH. exact Hr.
   Qed.
 
-  Lemma version_assert_safe ver : safeE QK (version_assert ver).
+  Lemma version_assert_safe ver : safeE Q (version_assert ver).
   Proof.
-    unfold version_assert, py_assert. destruct ver as [v|]; [|apply safeE_ok].
-    destruct (ver23 v); [apply safeE_ok|known].
+    unfold version_assert. destruct ver as [v|]; [|apply safeE_ok].
+    destruct (ver23 v); [apply safeE_ok|apply safeE_err; exact Qdge].
   Qed.
 
-  Lemma rr_scan_safe l : safeE QK (rr_scan l).
+  Lemma rr_scan_safe l : safeE Q (rr_scan l).
   Proof.
     induction l as [|r l IH]; cbn [rr_scan]; [apply safeE_ok|].
-    destruct r; [exact IH|apply safeE_err; exact QK_dge|known|known|known].
+    destruct r; [exact IH|apply safeE_err; exact Qdge].
   Qed.
 
   Lemma top_statements_safe inc l :
-    (forall nm, safeE QK (inc nm)) -> Forall (fun y => is_dict y = true) l ->
-    safeE QK (top_statements inc l).
+    (forall nm, safeE Q (inc nm)) -> Forall (fun y => is_dict y = true) l ->
+    safeE Q (top_statements inc l).
   Proof.
     intros Hinc. induction l as [|y l IH]; intros Hf; cbn [top_statements]; [apply safeE_ok|].
     inversion Hf as [|? ? Hy Hr]; subst.
@@ -905,151 +946,110 @@ Section Top.
     sbind; [apply IH; exact Hr|]. apply safeE_ok.
   Qed.
 
-  Lemma validate_safe ff mf doc : safeE QK (validate E ff mf doc).
+  Lemma validate_safe ff mf doc :
+    Pf ff [] "" ->
+    (forall c, load_file E ff [] "" doc ctx0 = Ok c ->
+       Pm mf [] /\
+       forall n' ps nm, Pm (S n') ps -> lookup_macro nm (c_macros c) <> None -> mem nm ps = false ->
+                        Pm n' (ps ++ [nm])) ->
+    safeE Q (validate E ff mf doc).
   Proof.
-    unfold validate.
+    intros HPf HPm. unfold validate.
     assert (H0 : CtxOK ctx0) by (split; constructor).
-    destruct (load_file_ok ff "" doc ctx0 H0) as [Hs Hk].
-    destruct (load_file E ff "" doc ctx0) as [c|e] eqn:Hl; [|apply safeE_err; exact (Hs e eq_refl)].
-    destruct (Hk c eq_refl) as [Hst Hop].
-    destruct (c_parser c); [apply safeE_err; apply QK_other; discriminate|].
-    sbind; [apply top_statements_safe; [intros; apply include_macro_safe|exact Hst]|].
+    destruct (load_file_ok ff [] "" doc ctx0 HPf H0) as [Hs Hk].
+    destruct (load_file E ff [] "" doc ctx0) as [c|e] eqn:Hl; [|apply safeE_err; exact (Hs e eq_refl)].
+    destruct (Hk c eq_refl) as [Hst Hop]. destruct (HPm c eq_refl) as [Hm0 HmS].
+    destruct (c_parser c); [apply safeE_err; exact Quns|].
+    sbind; [apply top_statements_safe; [intros; apply include_macro_safe; assumption|exact Hst]|].
     sbind; [apply merge_options_safe; exact Hop|].
     sbind; [apply version_assert_safe|]. apply rr_scan_safe.
   Qed.
-
-  Theorem validate_never_crashes ff mf doc s :
-    validate E ff mf doc = Err (Internal s) -> In s known_crash_sites \/ In s (env_crashes E).
-  Proof. intros H. exact (validate_safe ff mf doc _ H s eq_refl). Qed.
 End Top.
+
+(* ================================================================== never an internal failure *)
+Theorem validate_never_crashes E ff mf doc s :
+  validate E ff mf doc = Err (Internal s) -> In s (env_crashes E).
+Proof.
+  intros H.
+  pose (Q := fun e : err => forall s, e = Internal s -> In s (env_crashes E)).
+  assert (Hs : safeE Q (validate E ff mf doc)).
+  { apply (validate_safe E Q) with (Pm := fun _ _ => True) (Pf := fun _ _ _ => True);
+      try (intros s' H'; discriminate); auto.
+    intros s' Hin s'' H'; inversion H'; subst; exact Hin. }
+  exact (Hs _ H s eq_refl).
+Qed.
 
 (* ================================================================== termination *)
 (* walk is structurally recursive (accepted by Coq as such): only macro expansion and file inclusion
-   consume fuel.  If the macro reference graph is acyclic — every macro mentioned inside a macro's
-   body (its own `include:` and those of the templates nested in it) has a smaller rank — macro
-   expansion ends within the fuel. *)
+   consume fuel.  Both keep a stack of what is being expanded / loaded and refuse to re-enter it, so the
+   depth is bounded by the number of macros / of files. *)
 Definition NoOOF (e : err) : Prop := e <> OutOfFuel.
 
-Section Terminates.
-  Variable M : menv.
-  Variable rank : string -> nat.
-  Hypothesis Hrank : forall name body, lookup_macro name M = Some body ->
-    forall nm, In nm (incl_names (YMap body)) -> (rank nm < rank name)%nat.
+Fixpoint macro_names (M : menv) : list string :=
+  match M with
+  | [] => []
+  | (YStr s, _) :: r => s :: macro_names r
+  | _ :: r => macro_names r
+  end.
 
-  Let Qd : NoOOF (DGE "") := ltac:(discriminate).
-
-  Lemma walk_noOOF inc n y m :
-    (forall nm, (rank nm < n)%nat -> safeE NoOOF (inc nm)) ->
-    (m = MStmt true -> is_dict y = true) ->
-    (forall nm, In nm (incl_names y) -> (rank nm < n)%nat) ->
-    safeE NoOOF (walk inc m y).
-  Proof.
-    intros Hinc Hm Hn.
-    apply (walk_safe NoOOF Qd ltac:(discriminate) ltac:(discriminate) ltac:(discriminate)
-                     inc (fun nm => (rank nm < n)%nat) Hinc y m Hm Hn).
-  Qed.
-
-  Lemma include_macro_noOOF n : forall parents name,
-    (rank name < n)%nat -> safeE NoOOF (include_macro M n parents name).
-  Proof.
-    induction n as [|n IH]; intros parents name Hr; [lia|]. cbn [include_macro].
-    destruct (lookup_macro name M) as [body|] eqn:Hb; [|apply safeE_err; exact Qd].
-    cbv zeta.
-    destruct (parse_element macro_spec body) as [u|e] eqn:Hpe;
-      [|apply safeE_err; eapply (parse_element_safe NoOOF); [exact Qd|exact Hpe]].
-    destruct (mem name parents); [apply safeE_err; exact Qd|].
-    assert (Hbody : forall nm, In nm (incl_names (YMap body)) -> (rank nm < n)%nat).
-    { intros nm Hin. pose proof (Hrank name body Hb nm Hin). lia. }
-    assert (Hw : forall y' m', (size y' < S (size (YMap body)))%nat -> m' <> MStmt true ->
-                               NamesIn (fun nm => (rank nm < n)%nat) y' ->
-                               safeE NoOOF (walk (include_macro M n []) m' y')).
-    { intros y' m' _ Hm Hn. apply (walk_noOOF _ n); [intros; apply IH; assumption| |exact Hn].
-      intros Hc; contradiction. }
-    sbind.
-    { unfold py_split_include. destruct (lookup "include" body) as [v|] eqn:Hl; [|apply safeE_ok].
-      pose proof (spec_typed _ _ _ _ _ _ Hpe Hl eq_refl) as Hd. cbn beta in Hd.
-      destruct v; try discriminate. }
-    sbind.
-    { apply (each_inc_safe NoOOF _ (fun nm => (rank nm < n)%nat)); [intros; apply IH; assumption|].
-      intros nm Hin. apply Hbody. apply incl_names_own. eapply split_include_own; eassumption. }
-    sbind. { unfold py_attr. destruct (lookup "fields" body); apply safeE_ok. }
-    sbind.
-    { unfold py_attr in H1. destruct (lookup "fields" body) as [v|] eqn:Hl; inversion H1; subst.
-      - eapply (parse_fields_safe NoOOF Qd ltac:(discriminate) (fun nm => (rank nm < n)%nat)); [exact Hw | | |].
-        + pose proof (lookup_size _ _ _ Hl). lia.
-        + intros nm Hin. apply Hbody. eapply incl_names_map; [apply lookup_in; exact Hl|exact Hin].
-        + intros _. exact (spec_typed _ _ _ _ _ _ Hpe Hl eq_refl).
-      - unfold parse_fields. cbn. apply safeE_ok. }
-    sbind. { unfold py_attr. destruct (lookup "friends" body); apply safeE_ok. }
-    sbind; [|apply safeE_ok].
-    unfold py_attr in H3. destruct (lookup "friends" body) as [v|] eqn:Hl; inversion H3; subst.
-    + eapply (parse_friends_safe NoOOF (fun nm => (rank nm < n)%nat)); [exact Hw | | |].
-      * pose proof (lookup_size _ _ _ Hl). lia.
-      * intros nm Hin. apply Hbody. eapply incl_names_map; [apply lookup_in; exact Hl|exact Hin].
-      * intros _. exact (spec_typed _ _ _ _ _ _ Hpe Hl eq_refl).
-    + unfold parse_friends. cbn. apply safeE_ok.
-  Qed.
-
-  Lemma top_statements_noOOF n l :
-    Forall (fun y => is_dict y = true) l ->
-    (forall y nm, In y l -> In nm (incl_names y) -> (rank nm < n)%nat) ->
-    safeE NoOOF (top_statements (include_macro M n []) l).
-  Proof.
-    induction l as [|y l IH]; intros Hf Hn; cbn [top_statements]; [apply safeE_ok|].
-    inversion Hf as [|? ? Hy Hr]; subst.
-    sbind.
-    { apply (walk_noOOF _ n); [intros; apply include_macro_noOOF; assumption|intros _; exact Hy|].
-      intros nm Hin. eapply Hn; [left; reflexivity|exact Hin]. }
-    sbind; [apply IH; [exact Hr|]; intros; eapply Hn; [right; eassumption|eassumption]|].
-    apply safeE_ok.
-  Qed.
-End Terminates.
-
-Lemma merge_options_noOOF opts : forall ver, safeE NoOOF (merge_options opts ver).
+Lemma lookup_macro_in name M : lookup_macro name M <> None -> In name (macro_names M).
 Proof.
-  induction opts as [|o opts IH]; intros ver; cbn [merge_options]; [apply safeE_ok|].
-  unfold py_getitem. destruct (lookup "option" o) as [name|]; [|apply safeE_err; discriminate].
-  unfold py_hash. destruct (hashable name); [|apply safeE_err; discriminate].
-  destruct (lookup "default" o); [apply IH|apply safeE_err; discriminate].
+  induction M as [|[k b] M IH]; cbn [lookup_macro macro_names]; [congruence|].
+  destruct (lookup_macro name M) eqn:Hl.
+  - intros _. assert (In name (macro_names M)) by (apply IH; discriminate).
+    destruct k; try assumption. right; assumption.
+  - destruct k; try congruence. destruct (String.eqb s name) eqn:Hs; [|congruence].
+    apply String.eqb_eq in Hs. subst. intros _. left; reflexivity.
 Qed.
 
-Lemma version_assert_noOOF ver : safeE NoOOF (version_assert ver).
+Lemma macro_names_length M : (length (macro_names M) <= length M)%nat.
+Proof. induction M as [|[k b] M IH]; cbn [macro_names length]; [lia|]. destruct k; cbn [length]; lia. Qed.
+
+Lemma doc_keys_length l : (length (doc_keys l) <= length l)%nat.
+Proof. induction l as [|[k e] l IH]; cbn [doc_keys length]; [lia|]. destruct e; cbn [length]; lia. Qed.
+
+(* a duplicate-free stack drawn from `universe`, with enough fuel left for everything not yet on it *)
+Definition bounded (universe : list string) (n : nat) (stack : list string) : Prop :=
+  NoDup stack /\ incl stack universe /\ (length universe < n + length stack)%nat.
+
+Lemma bounded_0 universe stack : bounded universe O stack -> False.
 Proof.
-  unfold version_assert, py_assert. destruct ver as [v|]; [|apply safeE_ok].
-  destruct (ver23 v); [apply safeE_ok|apply safeE_err; discriminate].
+  intros [Hn [Hi Hl]]. pose proof (NoDup_incl_length Hn Hi). lia.
 Qed.
 
-Lemma rr_scan_noOOF l : safeE NoOOF (rr_scan l).
-Proof.
-  induction l as [|r l IH]; cbn [rr_scan]; [apply safeE_ok|].
-  destruct r; [exact IH| | | |]; apply safeE_err; discriminate.
-Qed.
-
-(* Once the files are loaded (file inclusion depth is bounded by its own fuel, excluded here), the
-   rest of the validation ends within a macro fuel above the ranks of the macros the statements mention. *)
-Theorem validate_terminates E ff mf doc c (rank : string -> nat) :
-  load_file E ff "" doc ctx0 = Ok c ->
-  (forall name body, lookup_macro name (c_macros c) = Some body ->
-     forall nm, In nm (incl_names (YMap body)) -> (rank nm < rank name)%nat) ->
-  (forall y nm, In y (c_stmts c) -> In nm (incl_names y) -> (rank nm < mf)%nat) ->
+Theorem validate_terminates E ff mf doc :
+  (S (length (fenv E)) < ff)%nat ->
+  (forall c, load_file E ff [] "" doc ctx0 = Ok c -> (length (c_macros c) < mf)%nat) ->
   validate E ff mf doc <> Err OutOfFuel.
 Proof.
-  intros Hl Hrank Hst. unfold validate. rewrite Hl.
-  assert (H0 : CtxOK ctx0) by (split; constructor).
-  destruct (load_file_ok E ff "" doc ctx0 H0) as [_ Hk]. destruct (Hk c Hl) as [Hd _].
-  destruct (c_parser c); [discriminate|].
-  intros H. revert H.
-  match goal with |- ?r = Err OutOfFuel -> False => change (r <> Err OutOfFuel); assert (Hs : safeE NoOOF r) end.
-  { sbind; [apply (top_statements_noOOF _ rank Hrank); assumption|].
-    sbind; [apply merge_options_noOOF|]. sbind; [apply version_assert_noOOF|]. apply rr_scan_noOOF. }
-  intros H. exact (Hs _ H eq_refl).
-Qed.
-
-Corollary validate_terminates_without_macros E ff mf doc c :
-  load_file E ff "" doc ctx0 = Ok c -> c_macros c = [] -> (0 < mf)%nat ->
-  validate E ff mf doc <> Err OutOfFuel.
-Proof.
-  intros Hl Hm Hmf. apply (validate_terminates E ff mf doc c (fun _ => O) Hl).
-  - rewrite Hm. cbn. discriminate.
-  - intros; exact Hmf.
+  intros Hff Hmf H.
+  set (U := "" :: doc_keys (fenv E)).
+  pose (Pf := fun n stack key => bounded U n (key :: stack)).
+  assert (Hs : safeE NoOOF (validate E ff mf doc)).
+  { apply (validate_safe E NoOOF) with
+      (Pm := fun n ps => exists c, load_file E ff [] "" doc ctx0 = Ok c /\ bounded (macro_names (c_macros c)) n ps)
+      (Pf := Pf); try (intros; discriminate); try discriminate.
+    - intros parents [c [_ Hb]]. destruct (bounded_0 _ _ Hb).
+    - intros stack key Hb. destruct (bounded_0 _ _ Hb).
+    - intros n stack key k [Hn [Hi Hl]] Hk Hc. apply orb_false_iff in Hc. destruct Hc as [Hne Hmem].
+      repeat split.
+      + constructor; [|exact Hn]. intros [Heq|Hin].
+        * subst. rewrite String.eqb_refl in Hne. discriminate.
+        * exact (mem_false_not_in _ _ Hmem Hin).
+      + intros x [Hx|Hx]; [subst; right; exact Hk|apply Hi; exact Hx].
+      + cbn [length] in *. lia.
+    - repeat split.
+      + constructor; [intros []|constructor].
+      + intros x [Hx|[]]. subst. left; reflexivity.
+      + unfold U. cbn [length]. pose proof (doc_keys_length (fenv E)). lia.
+    - intros c Hc. split.
+      + exists c. split; [exact Hc|]. repeat split; [constructor|intros x []|].
+        cbn [length]. pose proof (macro_names_length (c_macros c)). specialize (Hmf c Hc). lia.
+      + intros n' ps nm [c' [Hc' [Hn [Hi Hl]]]] Hlk Hmem. rewrite Hc in Hc'. inversion Hc'; subst c'.
+        exists c. split; [exact Hc|]. repeat split.
+        * apply NoDup_snoc; [exact Hn|]. apply mem_false_not_in. exact Hmem.
+        * intros x Hx. apply in_app_iff in Hx. destruct Hx as [Hx|[Hx|[]]]; [apply Hi; exact Hx|].
+          subst. apply lookup_macro_in. exact Hlk.
+        * rewrite app_length. cbn [length]. lia. }
+  exact (Hs _ H eq_refl).
 Qed.
